@@ -2,7 +2,7 @@
 import itertools
 
 ID = 'C01'
-LEAN_MODULES = ['C01', 'C01b', 'C01c', 'C01d', 'C01e', 'C01f']
+LEAN_MODULES = ['C01', 'C01b', 'C01c', 'C01d', 'C01e', 'C01f', 'C01g']
 RULE = ('one case = 2-4 REAL nodes (KeyspaceGroup + MemStore + Clock + datacake_rpc Server with the real ConsistencyService and ReplicationService on loopback; no chitchat), 3-25 events: client put/del/put_many/del_many '
         'applied locally exactly as ReplicatedStoreHandle does (stamps from the real clocks are fed to the model), their replication messages delivered / dropped / duplicated / reordered / batched through the real RPC clients, '
         'purges, late deliveries, anti-entropy exchanges in the middle of the history (so that later polls meet trackers); then - after the last operation - every ordered pair (j,i) completes one anti-entropy exchange (real poll_keyspace -> get_state -> Diff -> handle_removals / handle_modified with fetch_docs) '
@@ -96,7 +96,12 @@ def gen_case(rng, idx, fixed_pairs=None):
                     elif k_sp['nops'] >= 1: lines.append('deliver %d %d' % (rng.choice([i2, i2, j]), rng.below(k_sp['nops'])))
                 lines.append('repair-end %d %d' % (j, i2))
             else:
-                if m < 2 and len(spaces) == 1 and rng.chance(1, 5):
+                if m >= 2 and m < 4 and len(spaces) == 1 and rng.chance(1, 4):
+                    # an exchange on the production path whose document fetch the peer REFUSES (its storage cannot read): the removal
+                    # half runs, nothing is fetched, the exchange fails and the tracker must keep its old entry - the quiescent
+                    # exchanges that follow have to bring the documents (Cluster.repairFetchFail, Props/C01g)
+                    lines += ['failfetch %d' % i2, 'repairc %d %d' % (j, i2) if m == 2 else 'repairm %d' % j, 'clearfetch %d' % i2]
+                elif m < 2 and len(spaces) == 1 and rng.chance(1, 5):
                     # an exchange whose first storage call fails: nothing is applied, the tracker is not updated (C01f.repair_fail)
                     lines += ['failnext %d' % j, 'repair %d %d %d' % (j, i2, m), 'clearfail %d' % j]
                 else:
@@ -203,7 +208,7 @@ def canon(line, out):
         # safe for the poller: a reply stamped with the peer's final change stamp carries the final set
         safe = d['has1'] == 'true' and (d['stamp_is_final'] == 'false' or d['has2'] == 'true')
         return 'race safe' if safe else 'race UNSAFE ' + ' '.join('%s=%s' % (k, d[k]) for k in ('stamp_is_final', 'has1', 'has2'))
-    if line.startswith(('repair ', 'repair-end')) and out.startswith('err'):
+    if line.startswith(('repair ', 'repairc ', 'repair-end')) and out.startswith('err'):
         return 'err'                  # the text of the storage error is not modelled
     return out
 
